@@ -138,7 +138,7 @@ def execute(case, choose, cancel_at=None):
         tasks.append(driver.spawn(f"c{c}", consumer(c), cancel_at=cancel_at if c == case.get("cancel_task") else None))
     driver.run()
     info = {"trace": tuple(driver.trace), "choice_points": driver.choice_points, "worst_stale": worst["stale"],
-            "contended": lock.contended if lock else 0, "suspensions": [t.resumes for t in tasks]}
+            "contended": lock.contended if lock is not None else 0, "suspensions": [t.resumes for t in tasks]}
     expected = list(range(length))
     if driver.deadlock:
         viols.append(("tee/deadlock", f"no runnable task; unfinished: {[t.name for t in tasks if not t.done]}"))
